@@ -89,8 +89,7 @@ def build(name, variant="asan", thash=None, quiet=False):
         cmd.append("-I" + d)
     tmpexe = exe + ".%d.tmp" % os.getpid()
     cmd += [os.path.join(ROOT, "harness", name + ".cpp"), "-o", tmpexe]
-    if variant != "fuzz":
-        cmd += ["-lrapidcheck"]
+    cmd += ["-lrapidcheck"]
     t0 = time.time()
     r = subprocess.run(cmd, stdout=subprocess.PIPE, stderr=subprocess.STDOUT, text=True)
     if r.returncode != 0:
@@ -167,6 +166,22 @@ def crash_signature(text):
 
 # ------------------------------------------------------------------ replay / minimise
 def run_replay(exe, path, env=None, timeout=300):
+    hexline = None
+    try:
+        for l in open(path, errors="replace"):
+            if l.startswith("fuzzhex "):
+                hexline = l.split(None, 1)[1].strip()
+    except OSError:
+        pass
+    if hexline is not None:   # libFuzzer input: the binary re-executes the saved bytes
+        tmp = path + ".bin"
+        with open(tmp, "wb") as fh:
+            fh.write(bytes.fromhex(hexline))
+        try:
+            r = subprocess.run([exe, tmp], stdout=subprocess.PIPE, stderr=subprocess.STDOUT, text=True, env=env or sanitizer_env(), timeout=timeout, errors="replace")
+            return (0 if r.returncode == 0 else 3 if "C11-ORACLE-FAILURE" in r.stdout else r.returncode), r.stdout
+        except subprocess.TimeoutExpired:
+            return -999, ""
     try:
         r = subprocess.run([exe, "--replay", path], stdout=subprocess.PIPE, stderr=subprocess.STDOUT, text=True,
                            env=env or sanitizer_env(), timeout=timeout, errors="replace")
@@ -218,10 +233,94 @@ def tier_params(unit, tier):
     return p
 
 
+def run_fuzz_unit(pid, unit, tier, seed, outdir, known_open):
+    """libFuzzer unit: N independent fuzzing processes on fresh corpora; only crash-/leak- artifacts count."""
+    name = unit["harness"]
+    exe = build(name, "fuzz")
+    tp = tier_params(unit, tier)
+    workers = max(1, min(int(os.environ.get("VERIF_JOBS", tp.get("workers", 4 if tier == "quick" else 14))), NCPU))
+    udir = os.path.join(outdir, name)
+    os.makedirs(udir, exist_ok=True)
+    env = sanitizer_env()
+    env["ASAN_OPTIONS"] += ":max_allocation_size_mb=256"
+    runs = max(1, tp["cases"] // workers)
+    procs = []
+    for w in range(workers):
+        cdir = os.path.join(udir, f"corpus.{w}")
+        os.makedirs(cdir, exist_ok=True)
+        for fam in range(22):   # one tiny seed input per family (structure-aware decode: first byte selects the family)
+            with open(os.path.join(cdir, f"seed{fam:02d}"), "wb") as fh:
+                fh.write(bytes([fam]) + bytes((7 * fam + i) % 251 for i in range(20)))
+        lf = open(os.path.join(udir, f"log.{w}.txt"), "w")
+        cmd = [exe, cdir, f"-runs={runs}", f"-seed={seed * 1000 + w + 1}", "-max_len=40", "-timeout=25", "-rss_limit_mb=3000",
+               "-malloc_limit_mb=256", f"-artifact_prefix={udir}/art.{w}.", "-print_final_stats=1", "-use_value_profile=1"]
+        procs.append((w, subprocess.Popen(cmd, stdout=lf, stderr=subprocess.STDOUT, env=env), lf))
+    limit = tp.get("timeout", 900 if tier == "quick" else 7200)
+    t0 = time.time()
+    result = {"stats": [], "violations": [], "problems": [], "known": {}}
+    for w, p, lf in procs:
+        try:
+            p.wait(timeout=max(1, limit - (time.time() - t0)))
+        except subprocess.TimeoutExpired:
+            p.send_signal(signal.SIGINT)
+            try:
+                p.wait(timeout=30)
+            except subprocess.TimeoutExpired:
+                p.kill(); p.wait()
+            result["problems"].append(f"{name} worker {w}: wall budget of {limit}s hit (inconclusive, not a violation)")
+        lf.close()
+    execs, hashes, samples = 0, [], []
+    for w, p, lf in procs:
+        logtxt = open(os.path.join(udir, f"log.{w}.txt"), errors="replace").read()
+        m = re.search(r"stat::number_of_executed_units:\s*(\d+)", logtxt)
+        if m:
+            execs += int(m.group(1))
+        else:
+            m2 = re.findall(r"^#(\d+)\s", logtxt, re.M)
+            if m2:
+                execs += int(m2[-1])
+        cdir = os.path.join(udir, f"corpus.{w}")
+        for fn in sorted(os.listdir(cdir)):
+            data = open(os.path.join(cdir, fn), "rb").read()
+            hashes.append(hashlib.sha1(data).hexdigest()[:16])
+            if len(samples) < 4 and not fn.startswith("seed"):
+                samples.append("fuzz input (hex): " + data.hex())
+        for art in sorted(glob.glob(os.path.join(udir, f"art.{w}.*"))):
+            base = os.path.basename(art)
+            if not (base.startswith(f"art.{w}.crash-") or base.startswith(f"art.{w}.leak-")):
+                continue   # slow-unit / timeout / oom are load noise
+            confirmed, lastout = 0, ""
+            for _ in range(3):
+                r = subprocess.run([exe, art], stdout=subprocess.PIPE, stderr=subprocess.STDOUT, text=True, env=env, errors="replace")
+                if r.returncode != 0:
+                    confirmed += 1
+                    lastout = r.stdout
+            if confirmed < 3:
+                result["problems"].append(f"{name}: artifact {base} did not reproduce 3x ({confirmed}/3)")
+                continue
+            sig = crash_signature(lastout)
+            mo = re.search(r"C11-ORACLE-FAILURE: ([^\n]{0,300})", lastout)
+            if mo:
+                sig = "oracle|" + re.sub(r"[^A-Za-z0-9_:.-]+", "-", mo.group(1))[:80]
+            rp = art + ".replay"
+            with open(rp, "w") as fh:
+                fh.write(f"# vf replay\nproperty {pid}\nharness {name}\ncheck fuzz-crash\nkey fuzz|{sig}\nmsg {sig}\nfuzzhex {open(art, 'rb').read().hex()}\n")
+            with open(rp + ".report.txt", "w") as fh:
+                fh.write(lastout[-20000:])
+            result["violations"].append({"kind": "crash", "file": rp, "line": f"FAIL check=fuzz-crash key=fuzz|{sig} msg={sig}", "exe": exe, "sig": "fuzz|" + sig})
+    result["stats"].append({"evaluations": execs, "nontrivial_hashes": hashes, "labels": {"sub:libfuzzer": execs}, "counters": {"corpus_files": len(hashes)},
+                            "known_hits": {}, "samples": samples, "notes": [],
+                            "rule": "libFuzzer (coverage-guided, value profile) on fz_c11_images: input decoded into (family, configuration, batches, variant, fault); "
+                                    "evaluations = executed units; distinct non-trivial = inputs kept in the corpus because they reached new coverage"})
+    return result
+
+
 def run_unit(pid, unit, tier, seed, outdir, known_open):
     """Runs one harness unit with several workers. Returns dict(stats=[...], violations=[...], problems=[...])."""
     name = unit["harness"]
     variant = unit.get("variant", "asan")
+    if variant == "fuzz":
+        return run_fuzz_unit(pid, unit, tier, seed, outdir, known_open)
     exe = build(name, variant)
     tp = tier_params(unit, tier)
     workers = int(os.environ.get("VERIF_JOBS", tp.get("workers", 4 if tier == "quick" else 14)))
@@ -464,7 +563,7 @@ def check(pid, tier):
             m = re.search(r"key=(\S*)", v["line"])
             key = m.group(1) if m else ""
             if v["kind"] == "crash":
-                key = "crash|" + v.get("sig", "")
+                key = v.get("sig", "") if v.get("sig", "").startswith("fuzz|") else "crash|" + v.get("sig", "")
             if key and key in known_keys:
                 known_hits[key] = known_hits.get(key, 0) + 1
                 continue
@@ -525,6 +624,8 @@ def replay(path):
     for u in PROPS.get(pid, {}).get("units", []):
         if u["harness"] == hname:
             variant = u.get("variant", "asan")
+    if hname.startswith("fz_"):
+        variant = "fuzz"
     exe = build(hname, variant)
     known_open = [k for k in load_known() if k.get("property") == pid and k.get("status") == "open"]
     env = sanitizer_env()
